@@ -33,3 +33,6 @@ func StatusDigest(rs types.Receipts) string { return statusDigest(rs) }
 
 // LogIndexDigest digests the transaction index every log carries.
 func LogIndexDigest(rs types.Receipts) string { return logIndexDigest(rs) }
+
+// HasPenalty reports whether the receipts carry a slashing log.
+func HasPenalty(rs types.Receipts) bool { return hasPenalty(rs) }
